@@ -32,7 +32,7 @@ def dbname(platform):
 
 
 def gen(rng, n_tus=None, n_platforms=None, outside=False, missing=0.0, toggles=True, subdir=True,
-        forced=True, computed=True, big=False, findable=False, deep=0, casepair=False, reguard=False, dirdecoy=False, outside_tu=False, updir=False, links=False, oddnames=False):
+        forced=True, computed=True, big=False, findable=False, deep=0, casepair=False, reguard=False, dirdecoy=False, outside_tu=False, updir=False, links=False, oddnames=False, dirlinks=False):
     """deep=N: the first translation unit also includes a chain of N headers nested N levels deep (each level holds
     code and a macro test; the innermost one defines a macro the translation unit tests afterwards and includes
     ordinary -- possibly missing -- headers).  gcc's nesting limit is 200.
@@ -49,6 +49,10 @@ def gen(rng, n_tus=None, n_platforms=None, outside=False, missing=0.0, toggles=T
     the first translation unit includes it under that name.
     outside_tu: the last translation unit lives outside the analysis root (a generated source) and includes in-root
     headers.
+    dirlinks: beside the first translation unit sits a symbolic link `up_inc` to the directory inc/below, and the unit
+    includes "up_inc/../dl_hdr.h": the operating system climbs from the link's target, so this is inc/dl_hdr.h and not
+    the decoy of the same name beside the includer (key `flinks`; `<up_inc/../dl_hdr.h>` likewise when the link's
+    directory is searched).
     dirdecoy: a *directory* named like a header sits in a search directory that has no such header file (a compiler
     skips it and keeps searching)."""
     dirs = ["src"] + (["src/sub"] if subdir and rng.random() < 0.7 else []) + INC_DIRS
@@ -183,6 +187,13 @@ def gen(rng, n_tus=None, n_platforms=None, outside=False, missing=0.0, toggles=T
                      ["chain", [["ifdef", "D_OLINK", [["code"]]], ["else", None, [["code"]]]]],
                      ["chain", [["ifdef", "D_ILINK", [["code"]]], ["else", None, [["code"]]]]]]
             link_map = {f"{d}/olink.h": "@out/ext/olinked.h", f"{d}/ilink.h": "inc/ilinked.h"}
+        if dirlinks and t == 0 and not d.startswith("@out"):
+            files["inc/dl_hdr.h"] = [["code"], ["define", "D_DLNK", None], ["code"]]
+            files[f"{d}/dl_hdr.h"] = [["code"], ["code"], ["define", "D_DLNK_DECOY", None]]
+            body += [["include", "q", "up_inc/../dl_hdr.h"],
+                     ["chain", [["ifdef", "D_DLNK", [["code"]]], ["else", None, [["code"]]]]],
+                     ["chain", [["ifdef", "D_DLNK_DECOY", [["code"]]], ["else", None, [["code"]]]]]]
+            dirlink_map = {f"{d}/up_inc": "inc/below"}
         if reguard and t == 0:
             # nothing but the include guard at top level, like a real header
             files[f"{d}/tab.h"] = [["bare"], ["chain", [["ifndef", "TAB_G", [
@@ -230,11 +241,14 @@ def gen(rng, n_tus=None, n_platforms=None, outside=False, missing=0.0, toggles=T
     case = {"files": files, "tus": tus}
     if links and tus and not tus[0]["file"].startswith("@out/"):
         case["flinks"] = link_map
+    if dirlinks and tus and not tus[0]["file"].startswith("@out/"):
+        case.setdefault("flinks", {}).update(dirlink_map)
+        case["dirs"] = ["inc/below"]
     if dirdecoy:
         free = [(d_, nm) for nm in names for d_ in ["src"] + INC_DIRS if f"{d_}/{nm}" not in files]
         if free:
             d_, nm = rng.choice(free)
-            case["dirs"] = [f"{d_}/{nm}"]
+            case["dirs"] = case.get("dirs", []) + [f"{d_}/{nm}"]
     return case
 
 
